@@ -38,6 +38,18 @@ CHECKS = {
  "C19": dict(level="fault_enumeration", tech="fault-injection monitor: instrumented io.Reader (every split point, chunk patterns, zero-length reads, EOF with data, failure at every byte offset) and instrumented io.Writer (failure at every write call index, persistent/once, rejected/partial) around the real readers and writers; oracle = equality with the fault-free run, error stickiness, prefix relation",
    text="Per document the fault space is enumerated: every single split point, read failure at every byte offset 0..len, write failure at every write call index in four fault models and four writer configurations (text, pretty, binary, binary with fixed table); documents are sampled from both reference producers with lookahead-heavy tokens.",
    note="Read failures are persistent; write failures use both a persistent and a one-shot model. Long write sequences (> 60 calls) are thinned to every third index in the middle.", ref="3 C19"),
+ "C05": dict(level="exploration", tech="end-to-end copy monitor: source documents with their own symbol tables/imports/id references copied by the documented Reader->Writer loop into four writer configurations; destination judged by ion-go's reader and by the independent decoder against what the Reader saw in the source",
+   text="Held on the copies executed: reference renderings in text and binary (local tables, multi-segment streams, $n/SID references) and symbol-heavy sources (1..3 replacing/appending tables, shared imports through a catalog, text shadowing imports/system symbols, id-looking text) x {text, pretty, binary, binary with the source's shared tables}.",
+   note="Sources the Reader rejects or that contain unknown-text symbols other than $0 are skipped (counted).", ref="3 C05"),
+ "C10": dict(level="exploration", tech="history monitor: stream histories of version markers, replacing/appending tables and imports rendered in both formats, compared value by value and table by table (Reader.SymbolTable after every user value) with an independent evolution of the symbol context under six catalog variants",
+   text="Held on the histories executed: 1..8 segments per stream, imports with declared max_id absent/=/</>, catalogs nil/empty/exact/newer/older/all, ids referenced at every region boundary incl. max id + 1 (must fail), alternative spellings of the table annotation and of the append symbol ($3, quoted).",
+   note="Gap slots and duplicate imports/symbols fields are outside the strict oracle.", ref="3 C10"),
+ "C11": dict(level="exploration", tech="output-structure monitor: binary writers created with shared tables or a fixed table, output decoded by the independent decoder raw and with the tables, import declarations, id choice (lowest id per text) and local-symbol minimality checked against the id-space model; failure semantics of fixed tables checked call by call",
+   text="Held on the configurations executed: 0..3 shared tables with overlapping text, gaps, adjusted max_id; streams mixing inside and outside text in symbol, field-name and annotation positions; fixed tables from NewLocalSymbolTable and from a Build() snapshot of a builder that keeps growing.",
+   note="Trusted: refbin and refsym.", ref="3 C11"),
+ "C12": dict(level="exploration", tech="protocol monitor: a shadow automaton of the Writer protocol driven by the actual return values over exhaustively enumerated short call sequences and random long ones; oracles on panics, error stickiness, validity and content of the output under the independent decoder, determinism (two runs)",
+   text="Held on the sequences executed: every sequence of length <= 4 (quick) / <= 6 (thorough) over a 12-call alphabet x 4 writer configurations, plus random sequences to length 60 over the 29-call interface biased towards legal continuations, each followed by a final Finish and executed twice.",
+   note="Arguments are valid Go values; legality concerns the sequence. Sequences where a successful End*/Finish discards pending annotations/field names are checked for validity and stickiness only.", ref="3 C12"),
 }
 NA = {}
 def main():
